@@ -1979,7 +1979,7 @@ class VFile(Sink):
 def cli_hook(vfs, argv):
     def hook(mm, c0, args):
         from interp import strip_generics as _sg
-        c = _sg(c0)
+        c = re.sub(r'^std::(ffi|path|fs)::(?=OsStr|OsString|Path|PathBuf)', '', _sg(c0))
         meth = c.split('::')[-1].split('<')[0]
         a0 = args[0] if args else None
         if c in ('init', 'env_logger::init'):
